@@ -11,7 +11,7 @@ from common import Outcome, ToolError, log, sample, seed, workdir, run_harness
 import eng_core
 import eng_query
 
-AS_BUILT = eng_core.AS_BUILT + ["D23_bytes_differ", "D16_pagination", "D09_slices_crowd"]
+AS_BUILT = eng_core.AS_BUILT + ["D23_bytes_differ", "D16_pagination", "D09_slices_crowd", "D16_slice_cap", "D16_candidate_window"]
 
 
 def run_once(scs, wd, tag, jobs):
